@@ -35,15 +35,19 @@ MANIFEST = {
             'thread count and of the block boundaries); weights undergo the same permutation; starts[k] = #{key < k}, '
             'non-decreasing from 0 to N; the write cursors of the (thread, key) cells tile [0,N) and every output cell is '
             'written exactly once, so by the data-race-freedom theorem of Common/Par.v every interleaving of the scatter '
-            'phase yields the same arrays; sort=True: proved for ONE iteration of the per-stripe sort loop (any stripe: Ok, '
-            'sorted on the coordinate, a permutation of the stripe, weights rearranged by the same indices, nothing outside '
-            'the stripe touched; argsort abstract) - the composition over all stripes is stated but not proved and rests on '
-            'the correspondence run; the generated key expression equals min(floor(x*np/box), np-1) and lies in [0,np) for '
+            'phase yields the same arrays; sort=True (sorted_option, by induction over the per-stripe sort loop; argsort abstract, '
+            'assumed on every call to return a permutation of the indices that sorts its argument): Ok, same starts, every '
+            'segment [starts k, starts k+1) is sorted on the coordinate and a permutation of stripe k, the (position, weight) '
+            'pairs of the segment are a permutation of the input pairs of that stripe, the whole output is still a permutation '
+            'of the input and stripe-ordered (key sequence 0..0 1..1 ...); the one-iteration statement is kept as a theorem of '
+            'its own; the generated key expression equals min(floor(x*np/box), np-1) and lies in [0,np) for '
             '0 <= x <= box.  The model is tied to the code by running both on the same structured inputs '
             '(N in {0,1,2,3,17,100} x npartition {1,2,3,7,64} x nthread 1..16 x coord x float32/64 x weights x sort; '
             'duplicates, stripe-boundary values, x = box) and comparing psort, starts, wsort exactly.',
-    'note': 'PARTIAL: sorted_option (sort=True over all stripes) is STATED-UNPROVED in Properties.v; proved instead: '
-            'sort_step_on_a_stripe_partial (one loop iteration).  All other clauses are proved at full strength.  '
+    'note': 'All clauses are proved at full strength, including sorted_option (sort=True over all stripes, '
+            'ProofsSortAll.v); sort_step_on_a_stripe_partial (one loop iteration, argsort constrained on that call only) is '
+            'its induction step.  The argsort hypotheses are inhabited: the insertion argsort of the executable model '
+            '(Run.argsort_ins) satisfies them for every list (ArgsortIns.v, used by Examples.v only).  '
             'Hand-written model (not translated): its statements are pinned by an AST shape check in tools/gen/c17.py and it '
             'is validated by the correspondence run.  argsort is a Section variable (assumed: sorting permutation).  '
             'Floating-point rounding of pos*inv_pwidth is not modelled (exact rationals; dyadic test inputs).  The schedule '
